@@ -35,13 +35,13 @@ BUILT = {
     ),
     "C05": (
         "explicit-state BFS over row sequences on the real Reader (all three error modes) with product-state merging, compared with dict/set models of the checks",
-        "BFS over row sequences (depth 4-6 quick, 6-10 thorough) for key sets of 1..3 fields, every comparison operator x thresholds 0..4, both declaration orders and two IsUnique checks; each edge is run in yield, continue and raise mode on fresh readers; rejections, first-occurrence back references and end-of-data verdicts are compared with the model.",
+        "BFS over row sequences (depth 4-6 quick, 6-10 thorough) for key sets of 1..3 fields, every comparison operator x thresholds 0..4, both declaration orders and two IsUnique checks; each edge is run in yield, continue and raise mode on fresh readers, through cutplace.rows() (end-of-data verdict delivered at exhaustion) and on a reader that was constructed before another complete read of the same CID; rejections, first-occurrence back references and end-of-data verdicts are compared with the model.",
         "Trusted: rowmodel.Run (a dict and a set). Rows vetoed by an earlier-declared check do not reach later checks.",
         "DESIGN.md §4 C05",
     ),
     "C06": (
         "explicit-state BFS over tables with a relational (differential) oracle between the three error modes, plus exhaustive container-fault enumeration at every row boundary",
-        "For every table reached by BFS (C04 configurations plus CIDs with end-of-data checks, 4 formats) the outputs of cutplace.rows in yield/continue/raise mode and the Reader counters are compared with each other; container faults (undecodable byte, unterminated quote, record cut short, truncated / directory-less ODS and XLSX archives) are injected at every row / every 64th (thorough: every) byte and must end every mode with a DataFormatError.",
+        "For every table reached by BFS (C04 configurations plus CIDs with end-of-data checks, 4 formats) the outputs of cutplace.rows in yield/continue/raise mode, the Reader counters and three readers constructed up front on one shared CID are compared with each other; container faults (undecodable byte, unterminated quote, record cut short, truncated / directory-less ODS and XLSX archives) are injected at every row / every 64th (thorough: every) byte and must end every mode with a DataFormatError.",
         "Differential oracle: no expected values are hand-written. Rows before a container fault may or may not be produced.",
         "DESIGN.md §4 C06",
     ),
@@ -53,7 +53,7 @@ BUILT = {
     ),
     "C08": (
         "explicit-state BFS over operation histories on one shared CID to the fixpoint of the canonical CID state; differential oracle against a freshly loaded CID",
-        "22 operations (reads in 3 modes, abandoned and never-closed reads, validate, writes with/without close, CutplaceApp.validate) are applied in every distinct canonical state of the shared CID (structural snapshot of its check objects); the search reaches the fixpoint (23 states), so histories of every length are covered; every observation must equal that of the same operation on a fresh CID; histories up to depth 2/3 are also enumerated without merging.",
+        "25 operations (reads in 3 modes, abandoned and never-closed reads, readers constructed now and consumed later, validate, writes with/without close, CutplaceApp.validate) are applied in every distinct canonical state of the shared CID (structural snapshot of its check objects plus the readers still held); the search reaches the fixpoint (161 states), so histories of every length are covered; every observation must equal that of the same operation on a fresh CID; histories up to depth 2/3 are also enumerated without merging.",
         "Trusted: the structural snapshot (mc/snapshot.py) as state identity; held generators are closed by the harness.",
         "DESIGN.md §4 C08",
     ),
@@ -65,7 +65,7 @@ BUILT = {
     ),
     "C10": (
         "deviation-bounded exhaustive fault injection (one hostile cell at a time, pairs in the thorough tier; container truncation / bit flips at every offset) through every public entry point",
-        "Every cell of every row of 4 valid base CIDs (all field types, both checks) and of their data is replaced by each of 61 hostile values; containers (csv, fixed, ods, xlsx data; csv, ods, xlsx CIDs) are truncated and bit-flipped at every (quick: every 16th for archives) offset; each case runs Cid.read, rows x 3 modes, validate, Writer and applications.main; only InterfaceError / DataError may escape and main must not return 4.",
+        "Every cell of every row of 4 valid base CIDs (all field types, both checks) and of their data is replaced by each of ~115 hostile values; containers (csv, fixed, ods, xlsx data; csv, ods, xlsx CIDs) are truncated and bit-flipped at every (quick: every 16th for archives) offset and at every byte of the zip structural records; text data are also fed as line-ending preserving streams in 4 line-ending styles, quoted and unquoted, with every single-character deletion / replacement / insertion; each case runs Cid.read, rows x 3 modes, validate, Writer and applications.main; only InterfaceError / DataError may escape and main must not return 4.",
         "Oracle is the exception type only. One recorded known finding (absurdly large field lengths, known_findings.json).",
         "DESIGN.md §4 C10",
     ),
@@ -83,8 +83,8 @@ BUILT = {
     ),
     "C13": (
         "bounded exhaustive enumeration of input strings plus explicit-state fixpoint search over the product of the real fixed_rows generator frame state and specification automata",
-        "(1) all strings over {a,b,CR,LF} up to length 7 (thorough 9) x width lists x 5 delimiter settings; (2) BFS over input prefixes where the state is a structural snapshot of the suspended fixed_rows generator frame (blocked on a harness stream) x greedy and canonical specification states, explored to the fixpoint, i.e. all inputs of every length; oracle: returned rows have the declared widths and reproduce the input with some permitted delimiters, and canonically well-formed inputs are never rejected.",
-        "Trusted: mc/models/fixedspec.py. Frame locals that only feed messages are ignored in the snapshot (listed in the evidence).",
+        "(1) all strings over {a,b,CR,LF} up to length 8 (thorough 10) x width lists x 5 delimiter settings; (3) every single-character mutation of longer well-formed files; (2) BFS over input prefixes where the state is a structural snapshot of the suspended fixed_rows generator frame (blocked on a harness stream) x greedy and canonical specification states, explored to the fixpoint, i.e. all inputs of every length; oracle: returned rows have the declared widths and reproduce the input with some permitted delimiters, and canonically well-formed inputs are never rejected.",
+        "Trusted: mc/models/fixedspec.py. The snapshot walks every frame between the blocked read and the harness, whatever the functions are called; only the stream, Location objects and loop temporaries are ignored.",
         "DESIGN.md §4 C13",
     ),
     "C14": (
@@ -95,13 +95,13 @@ BUILT = {
     ),
     "C20": (
         "explicit-state BFS plus bounded enumeration over tables and run sequences with recording subclasses; recorded call log compared with a protocol model",
-        "Recording field format and check classes are resolved through CID rows; for ~100 configurations (1-3 fields with empty flag / length / allowed characters, 0-3 checks that accept, veto or fail at the end, header 0-2, delimited and fixed) and 19 run variants (reader x 3 modes x limits, explicit close inside with, validate, abandoned reader, writer with double close) plus all pairs of runs on one CID, the recorded call sequence must equal the model's; plugin-folder scenarios run in subprocesses.",
+        "Recording field format and check classes are resolved through CID rows; for ~100 configurations (1-3 fields with empty flag / length / allowed characters, 0-3 checks that accept, veto or fail at the end, header 0-2, delimited and fixed) and 19 run variants (reader x 3 modes x limits, explicit close inside with, validate, abandoned reader, writer with double close) plus all pairs of runs on one CID and on two different CIDs in one process (allowed characters, empty flags, checks differ), allowed ranges without the blank for fixed data and padded writer values, the recorded call sequence must equal the model's; plugin-folder scenarios run in subprocesses.",
         "Trusted: mc/models/protocol.py. Resets and cleanups are compared as unordered blocks; after a failing end verdict later ones may or may not be asked.",
         "DESIGN.md §4 C20",
     ),
     "C15": (
         "deviation-bounded exhaustive enumeration of tables x encoding-feature switches written by an independent ODF producer, plus exhaustive container-fault enumeration",
-        "All small tables over a text alphabet (blanks, tabs, line breaks, XML-special and non-ASCII characters) and 10 structured tables (runs, duplicate rows, ragged and empty rows, up to 6x8) are written as real .ods files with every subset of up to 2 (thorough: all) of 10 optional encoding features (column / row runs, text:s variants, paragraphs, spans, empty text:p, UTF-16, office filler), 1-3 sheets; rowio.ods_rows and cutplace.rows must return the logical table; not-a-zip, missing content.xml, content.xml cut at every tag boundary, malformed repeat counts, missing sheets and truncation at every 64th (thorough: every) byte must give DataFormatError.",
+        "All small tables over a text alphabet (blanks, tabs, line breaks, XML-special and non-ASCII characters) and 10 structured tables (runs, duplicate rows, ragged and empty rows, up to 6x8) are written as real .ods files with every subset of up to 3 (thorough: all) of 12 optional encoding features (column / row runs, text:s variants, paragraphs, spans at a split point, spans around a text range also nested, empty text:p, UTF-16, office filler), 1-3 sheets; rowio.ods_rows and cutplace.rows must return the logical table; not-a-zip, missing content.xml, content.xml cut at every tag boundary, malformed repeat counts, missing sheets and truncation at every 64th (thorough: every) byte must give DataFormatError.",
         "Trusted: mc/models/odf.py (producer, self-checked on every file by an independent decoder). One recorded known finding (row runs are not expanded).",
         "DESIGN.md §4 C15",
     ),
@@ -113,7 +113,7 @@ BUILT = {
     ),
     "C17": (
         "bounded exhaustive enumeration with a differential oracle across storage formats (3 CID storages x 3 data formats)",
-        "(a) every generated CID is stored as CSV, ODS (two encodings) and XLSX and must load into an equal definition snapshot; (b) every generated table (accepted cells, every rejected cell of every column, empty cells, duplicate keys) is stored as delimited text, ODS and XLSX (sheet 1 or 2) and read under CIDs differing only in Format, each CID itself stored in the three ways: all 9 event lists must be equal.",
+        "(a) every generated CID is stored as CSV, ODS (two encodings) and XLSX and must load into an equal definition snapshot; (b) every generated table (accepted cells incl. date+time values at midnight, text ending in '.0' and blank runs, every rejected cell of every column, empty cells, duplicate keys) is stored as delimited text, ODS (with inline elements around part of every longer cell) and XLSX (sheet 1 or 2) and read under CIDs differing only in Format, each CID itself stored in the three ways: all 9 event lists must be equal.",
         "Differential oracle, no hand-written expectations. Tables keep their last column non-empty (xlsx does not store empty strings).",
         "DESIGN.md §4 C17",
     ),
@@ -125,7 +125,7 @@ BUILT = {
     ),
     "C19": (
         "full enumeration of integer range pairs over the type-boundary set x 4 dialects plus generated multi-column CIDs; generated DDL parsed back and compared with the CID",
-        "All pairs lo <= hi over 49 boundary values (around 2^7, 2^8, 2^15, 2^16, 2^31, 2^32, 2^63, both signs) x 4 dialects, length-derived and default ranges, and 1-6 column CIDs over 40 typed declarations with keyword names: column count and order, keyword quoting against the dialect's own list, NOT NULL, integer capacity under the dialect's semantics, decimal digits and text lengths.",
+        "All pairs lo <= hi over 49 boundary values (around 2^7, 2^8, 2^15, 2^16, 2^31, 2^32, 2^63, both signs) x 4 dialects (the four dialects interleaved for every CID within one process), multi-item rules and lengths in both orders, length-derived and default ranges, and 1-6 column CIDs over 40 typed declarations with keyword names: column count and order, keyword quoting against the dialect's own list, NOT NULL, integer capacity under the dialect's semantics, decimal digits and text lengths.",
         "Trusted: capacity table per dialect (ANSI / PL/SQL int never alarm). One recorded known finding (Transact-SQL tinyint for negative lower limits).",
         "DESIGN.md §4 C19",
     ),
